@@ -66,9 +66,9 @@ def _send(c):
         # what a sender may rely on (guarantee G_send, proved for set_output/eval_block under C02/C01):
         # delivery never re-assigns the sender's own output (A-C02) and may fail with a delivery error
         c.ensures('source_output_kept', c.post('_output', src) == c.pre('_output', src))
-        c.ensures('queues_only_grow', queues_only_grow(c.S, c.T))
-        c.raises('DeliveryError', unchanged=False, ensures=lambda post, exc: [post.f('_output', src) == c.pre('_output', src),
-                                                                              queues_only_grow(c.S, post)])
+        impose_queues_only_grow(c.S, c.T)
+        c.raises('DeliveryError', unchanged=False, ensures=lambda post, exc: [post.f('_output', src) == c.pre('_output', src)]
+                                                                             + impose_queues_only_grow(c.S, post))
         return
     dest = c.pre('_dest', me)
     F, n = c.pre('_filters', me)
